@@ -4,8 +4,14 @@ CONSTANTS
   Prefixes <- MCPrefixes
   PAlpha = {"a", "b", "*", "?"}
   SelLen = 3
+  BeadPos <- MCPos
+  BoxL = 4
+  Refs <- MCRefs
+  R2s = {3, 5, 13}
+  BigR2 = 99
+  GeoLen = 2
   Tree <- MCTree
   SegLen = 2
   Emit = TRUE
-INVARIANTS ByNameIgnoresType StarSelectsAll Vector
+INVARIANTS BigIsAll SphereIsSubset ByNameIgnoresType StarSelectsAll Vector
 CHECK_DEADLOCK FALSE
